@@ -78,3 +78,10 @@ Definition graph_of (f : bytes) : graph :=
   fun n => match find (fun p => fst p =? n) tbl with Some p => snd p | None => [] end.
 Definition run_num_tree (fs : list bytes) : res (list bytes) :=
   do _ <- tree_walk_root (graph_of (field fs 0)) (N_of_dec (field fs 1)); Ok [].
+
+(* num_fax: K columns rows data.  The lines the external decoder delivers are not known to the model: it answers for the
+   geometry only — an error value when fax_decode refuses the parameters, the marker GEOM when the decoder is called
+   (the implementation then returns a value or an error, which the plugin's comparison accepts; never a panic). *)
+Definition run_num_fax (fs : list bytes) : res (list bytes) :=
+  do _ <- fax_geometry (Z_of_dec (field fs 0)) (N_of_dec (field fs 1)) (N_of_dec (field fs 2));
+  Ok [[71; 69; 79; 77]].
